@@ -1,6 +1,12 @@
 # edited by hand; read by gen_manifest.py
-SOURCE_COMMITS[:] = []
+SOURCE_COMMITS[:] = ["edd3339", "4b2c4df"]
 CHECKS.update({
+ "C01": ("Bounded symbolic model checking of the real Balance contract (go/ssa of the working tree): from a state built through the public API every method with fully symbolic arguments and signer set; supply = sum, non-negativity, supply moves only by mint/burn, refusals change nothing, notifications reproduce balances are asserted and discharged by SMT for all values inside the bound.",
+         "state mint(a0,x0) mint(a1,x1) lock(a0->lk,y,until) with symbolic amounts, then ONE symbolic operation out of transfer/transferX/mint/burn/lock/newEpoch (public transfer with 0/19/20/21-byte addresses; 20-byte symbolic from/to free to alias); longer histories are outside the claim.", "DESIGN.md 4 C01"),
+ "C02": ("Same scenarios as C01 with the authorisation assertions: a balance may decrease only with the holder's witness (public transfer from the holder) or the Alphabet's; Alphabet methods fail without the Alphabet witness; a refused transfer returns false and emits nothing.",
+         "as C01; 'the account is the calling contract' is exercised only through container->transferX in C05.", "DESIGN.md 4 C02"),
+ "C09": ("Bounded symbolic model checking of lock/burn/newEpoch of the real Balance contract (ticks delivered directly and through the real Netmap fan-out) against a reference model of lock expiry written in the harness.",
+         "one owner, two locks (amounts symbolic, until in -3..300), optional burn 0..y1 of the first, two ticks with symbolic epochs 1..300.", "DESIGN.md 4 C09"),
 })
 NA.update({
  "C15": "Deciding it means recompiling the contracts and comparing NEF/manifest/binding artifacts byte by byte, or equivalence checking of NeoVM byte code against the Go sources; the first is not solver-based, the second needs a symbolic NeoVM and a relational encoding of 11 contracts, out of reach here (DESIGN.md section 5).",
